@@ -84,9 +84,13 @@ def setBytes (file : Option Int) (k : Nat) (hx : Bytes) (s : Sender) : Sender :=
     else { s with files := s.files ++ [⟨n, hx⟩] }
 
 def lsStr (s : Sender) : String :=
-  let fs := (sortByName s.files).map (fun f => s!"{f.name}:{f.bytes.length}:{(fnv f.bytes).toNat}")
-  let c := match s.current with | none => "-" | some b => s!"{b.length}:{(fnv b).toNat}"
-  (if fs.isEmpty then "-" else ",".intercalate fs) ++ " " ++ c
+  let fs := (sortByName s.files).map (fun f => toString f.name)
+  (if fs.isEmpty then "-" else ",".intercalate fs) ++ " " ++ (match s.current with | none => "-" | some _ => "cur")
+
+/-- The replayed events of a queue: what the comparison with the model is about.  WHEN a log::SetLogPosition is queued in
+    between is not the property's business beyond the clause confirmation_not_beyond_received (judged on the
+    implementation's own queue). -/
+def eventsOnly (o : List OutObs) : List OutObs := o.filter (fun x => match x with | .m _ _ => true | .x => true | .l _ => false)
 
 def showNames (l : List Int) : String := if l.isEmpty then "-" else ",".intercalate (l.map toString)
 
@@ -112,6 +116,8 @@ structure DSt where
   nontrivial : Nat := 0
   mismatches : Nat := 0
   specfails : Nat := 0
+  setposDiff : Nat := 0
+  dumps : Nat := 0
   caseConfReplay : Bool := false
   caseConfOther : Bool := false
   confReplay : Nat := 0
@@ -179,8 +185,9 @@ def doReplay (d : DSt) (n : Nat) (opName : String) (now : Int) (p : Nat) (sndVie
     if dmg.isSome then d := { d with probes := d.probes + 1 }
     -- foreign bytes may decode to something the model cannot know: compare only without junk
     let junk := match dmg with | some g => g.junk | none => false
-    let implS := if junk then "(junk)" else showOut io
-    let modelS := if junk then "(junk)" else showOut mo
+    let implS := if junk then "(junk)" else showOut (eventsOnly io)
+    let modelS := if junk then "(junk)" else showOut (eventsOnly mo)
+    if !junk && io != mo then d := { d with setposDiff := d.setposDiff + 1 }
     finish d n opName node' implS modelS posS (some (.replay now p io dmg))
 
 def handle (d : DSt) (n : Nat) (line : String) : IO DSt := do
@@ -220,7 +227,9 @@ def handle (d : DSt) (n : Nat) (line : String) : IO DSt := do
         d ← mismatch d n "frame" frame "not-one-netstring"
       let e : Entry := ⟨now, id, sec⟩
       let node2 := if r.needLog then
-          { node1 with table := (payload, e) :: node1.table, snd := persist limit now payload now node1.snd } else node1
+          -- WHEN PersistMessage rotates (a counter threshold) is not the property's business: follow the implementation
+          let lim := if nf.isSome then 0 else 1000000000000000
+          { node1 with table := (payload, e) :: node1.table, snd := persist lim now payload now node1.snd } else node1
       let mLogged := r.needLog && node1.snd.isOpen && node1.snd.current.isSome
       let mLive := r.live.foldl (fun m i => m ||| (1 <<< i)) 0
       let mNew := newNames node1.snd node2.snd
@@ -269,8 +278,9 @@ def handle (d : DSt) (n : Nat) (line : String) : IO DSt := do
       let mDel := (sortByName (node.snd.files.filter (fun f => !s'.files.any (·.name == f.name)))).map (·.name)
       let mOut := fun i => match timerSetPos (node.peer i) with | some v => [OutObs.l v] | none => []
       let d := { d with deletions := d.deletions + del.length }
-      finish d n "timer" { node with snd := s' } s!"{showNames del} {showOut oA} {showOut oB} {showOut oC}"
-        s!"{showNames mDel} {showOut (mOut 0)} {showOut (mOut 1)} {showOut (mOut 2)}" pos (some (.timer now del [oA, oB, oC]))
+      -- the confirmations the timer queues are judged by the clause confirmation_not_beyond_received only
+      let d := if [oA, oB, oC] != [mOut 0, mOut 1, mOut 2] then { d with setposDiff := d.setposDiff + 1 } else d
+      finish d n "timer" { node with snd := s' } (showNames del) (showNames mDel) pos (some (.timer now del [oA, oB, oC]))
     | _, _, _, _, _ => bad
   | ["ack", p, v], [pos] =>
     match parsePeer p, parseInt? v with
@@ -288,6 +298,16 @@ def handle (d : DSt) (n : Nat) (line : String) : IO DSt := do
     | some file, some k, some hb =>
       finish d n "setbytes" { node with snd := setBytes file k hb node.snd } "" "" pos (some (.damage ⟨file, k, !hb.isEmpty⟩))
     | _, _, _ => bad
+  | ["dump", now], [vis, out, pos] =>
+    match parseInt? now, parseOut out with
+    | some now, some io =>
+      let visBits := vis.toList.map (· == '1')
+      let pr := node.peer 0
+      let dur := if pr.dur == 0 then 86400 * usec else pr.dur
+      let r := replay node.dec (fun o => visBits.getD o false) limit now dur 0 node.snd
+      let d := { d with dumps := d.dumps + 1 }
+      finish d n "dump" { node with snd := replaySender now dur node.snd } (showOut (eventsOnly io)) (showOut (eventsOnly (outObs r.out))) pos none
+    | _, _ => bad
   | ["ls"], [fs, cur] =>
     let d := { d with steps := d.steps + 1 }
     let impl := fs ++ " " ++ cur
@@ -323,4 +343,4 @@ def handle (d : DSt) (n : Nat) (line : String) : IO DSt := do
 def main : IO Unit := do
   let stdin ← IO.getStdin
   let d ← foldLines stdin handle ({} : DSt)
-  IO.println s!"STATS cases={d.caseNo} steps={d.steps} relays={d.relays} logged={d.logged} replays={d.replays} probes={d.probes} damaged_replays={d.damagedReplays} delivered={d.delivered} setpos_in_replay={d.setposSeen} rotations={d.rotations} deletions={d.deletions} restarts={d.restarts} recv_dropped={d.recvDropped} skipped_advances={d.skippedAdv} nontrivial={d.nontrivial} mismatches={d.mismatches} specfails={d.specfails} died={d.died} confirm_beyond_replay_file_name={d.confReplay} confirm_beyond_other={d.confOther}"
+  IO.println s!"STATS cases={d.caseNo} steps={d.steps} relays={d.relays} logged={d.logged} replays={d.replays} probes={d.probes} damaged_replays={d.damagedReplays} delivered={d.delivered} setpos_in_replay={d.setposSeen} rotations={d.rotations} deletions={d.deletions} restarts={d.restarts} recv_dropped={d.recvDropped} skipped_advances={d.skippedAdv} nontrivial={d.nontrivial} mismatches={d.mismatches} specfails={d.specfails} died={d.died} confirm_beyond_replay_file_name={d.confReplay} confirm_beyond_other={d.confOther} dumps={d.dumps} setpos_queue_differs_from_model={d.setposDiff}"
